@@ -63,6 +63,12 @@ type AuthRequest struct {
 	NASPortType uint32           // NAS port type (Ethernet = 15)
 	CalledID    string           // Called-Station-Id
 	CallingID   string           // Calling-Station-Id
+
+	// CHAP (RFC 2865 sections 5.3 and 5.40): when CHAPResponse is set the request carries
+	// CHAP-Password (CHAPID + CHAPResponse) and CHAP-Challenge instead of User-Password.
+	CHAPID        uint8
+	CHAPResponse  []byte
+	CHAPChallenge []byte
 }
 
 // AuthResponse holds authentication response data
@@ -165,7 +171,15 @@ func (c *Client) Authenticate(ctx context.Context, req *AuthRequest) (*AuthRespo
 
 	// Standard attributes
 	rfc2865.UserName_SetString(packet, req.Username)
-	if req.Password != "" {
+	if req.CHAPResponse != nil {
+		chapPassword := append([]byte{req.CHAPID}, req.CHAPResponse...)
+		if err := rfc2865.CHAPPassword_Set(packet, chapPassword); err != nil {
+			return nil, fmt.Errorf("failed to set CHAP-Password: %w", err)
+		}
+		if err := rfc2865.CHAPChallenge_Set(packet, req.CHAPChallenge); err != nil {
+			return nil, fmt.Errorf("failed to set CHAP-Challenge: %w", err)
+		}
+	} else if req.Password != "" {
 		rfc2865.UserPassword_SetString(packet, req.Password)
 	}
 	rfc2865.NASIdentifier_SetString(packet, c.nasID)
